@@ -201,7 +201,45 @@ def rule_walk_accounting(prog, fixture=False):
         #   last   = first + count - 1
         probs2 = []
         loops = [n for n in fn.walk() if n.get("k") == "ForStmt" and any(x is vc for x in walk(n))]
-        if len(loops) != 1:
+        rloops = [n for n in fn.walk() if n.get("k") in ("DoStmt", "WhileStmt") and any(x is vc for x in walk(n))]
+        if not loops and len(rloops) == 1 and rem is not None:
+            # remaining-driven form: `do { read sec; visit min(remaining, 256); remaining -= that; ++sec; } while (remaining > 0)`
+            # - the walk goes on exactly as long as bytes remain, so it covers the sectors the length needs;
+            #   what is left to check is where it starts and that it moves on one sector per pass
+            lp = rloops[0]
+            cn = strip_all(lp["c"][-1] if lp["k"] == "DoStmt" else lp["c"][lp["parts"]["cond"]])
+            rs_ = strip_all(rem)
+            cond_ok = cn is not None and ((cn.get("k") == "BinaryOperator" and cn.get("op") in (">", "!=") and folded(cn["c"][1]) == 0 and
+                                          (strip_all(cn["c"][0]) or {}).get("d") == rs_.get("d")) or
+                                         (cn.get("k") == "DeclRefExpr" and cn.get("d") == rs_.get("d")))
+            rb = [x for x in walk(lp) if x.get("k") == "CXXMemberCallExpr" and (strip(x["c"][0]) or {}).get("n") == "read_block"]
+            if not cond_ok or len(rb) != 1:
+                r.undecided.append("the sector loop is neither a counted for loop nor driven by the remaining length")
+            else:
+                sv = strip_all(rb[0]["c"][1])
+                start_ok = step_ok = False
+                if sv is not None and sv.get("k") == "DeclRefExpr":
+                    for v in fn.walk():
+                        if v.get("k") == "VarDecl" and v.get("d") == sv.get("d") and v.get("c"):
+                            lf = _lin(fn, v["c"][0])
+                            start_ok = lf is not None and _lin_norm(lf) == {"start_sector": 1}
+                    incs = [x for x in walk(lp) if x.get("k") == "UnaryOperator" and x.get("op") == "++" and
+                            (strip_all(x["c"][0]) or {}).get("d") == sv.get("d")]
+                    others = [x for x in fn.walk() if x.get("k") in ("BinaryOperator", "CompoundAssignOperator") and
+                              x.get("op") in flow.ASSIGN_OPS and (strip_all(x["c"][0]) or {}).get("d") == sv.get("d")]
+                    body = lp["c"][0] if lp["k"] == "DoStmt" else lp["c"][lp["parts"]["body"]]
+                    top = body.get("c", []) if body.get("k") == "CompoundStmt" else []
+                    step_ok = len(incs) == 1 and not others and any(strip_all(t) is incs[0] or t is incs[0] for t in top)
+                if not start_ok:
+                    probs2.append("the first sector read is not start_sector()")
+                if not step_ok:
+                    probs2.append("the sector number is not advanced by exactly one in every pass")
+                if lp["k"] == "WhileStmt":
+                    # a pre-tested loop would skip the (single) read of an empty file; that is fine for the bytes
+                    pass
+                r.add("%s::%s::sectors" % (fn.relfile(), fn.qn), loc, not probs2,
+                      "one consecutive sector per pass from start_sector() for as long as bytes remain" if not probs2 else "; ".join(probs2))
+        elif len(loops) != 1:
             r.undecided.append("the visitor is not invoked from a single for loop")
         else:
             lp = loops[0]
@@ -478,9 +516,19 @@ def _len_truth(fn, c, zero):
         return None if t is None else (not t)
     if c.get("k") == "BinaryOperator" and c.get("op") in ("==", "!=", ">"):
         l, r = c["c"][0], c["c"][1]
-        if folded(r) == 0 and _is_len(fn, l):
+
+        def lenlike(e):
+            # the length itself, or the number of sectors it needs (zero exactly when the length is zero)
+            if _is_len(fn, e):
+                return True
+            try:
+                v = _lin_ls(fn, e, False)
+            except RecursionError:
+                v = None
+            return v is not None and _lin_norm(v) == {"CEIL": 1}
+        if folded(r) == 0 and lenlike(l):
             return {"==": zero, "!=": not zero, ">": not zero}[c["op"]]
-        if folded(l) == 0 and _is_len(fn, r) and c["op"] in ("==", "!="):
+        if folded(l) == 0 and lenlike(r) and c["op"] in ("==", "!="):
             return zero if c["op"] == "==" else (not zero)
         return None
     if _is_len(fn, c):
@@ -674,8 +722,9 @@ def rule_degenerate_continue(prog, fixture=False):
 
 
 # ---------------------------------------------------------------- R-C01-7
-def _lin_vars(e, depth=0):
-    """Linear form over plain variables: {decl id: coefficient, "": constant}; None if not linear."""
+def _lin_vars(e, depth=0, fn=None, keep=()):
+    """Linear form over plain variables: {decl id: coefficient, "": constant}; None if not linear.
+    With fn given, never-written locals are replaced by their initialiser (except those in `keep`)."""
     e = strip_all(e)
     if e is None or depth > 8:
         return None
@@ -684,11 +733,21 @@ def _lin_vars(e, depth=0):
         return {"": v}
     k = e.get("k")
     if k == "DeclRefExpr":
+        if fn is not None and e.get("dk") == "Var" and e.get("d") not in keep:
+            written = any(d == e.get("d") for x in fn.walk() for d, _ in flow.written_decls(x)) or \
+                any(x.get("k") == "UnaryOperator" and x.get("op") in ("++", "--") and flow.lvalue_root(x["c"][0]) == e.get("d")
+                    for x in fn.walk())
+            if not written:
+                for vd in fn.walk():
+                    if vd.get("k") == "VarDecl" and vd.get("d") == e.get("d") and vd.get("c"):
+                        inner = _lin_vars(vd["c"][0], depth + 1, fn, keep)
+                        if inner is not None:
+                            return inner
         return {e.get("d"): 1}
     if k in ("CStyleCastExpr", "CXXStaticCastExpr", "CXXFunctionalCastExpr", "CXXConstructExpr") and len(e.get("c", [])) == 1:
-        return _lin_vars(e["c"][0], depth + 1)
+        return _lin_vars(e["c"][0], depth + 1, fn, keep)
     if k == "BinaryOperator" and e.get("op") in ("+", "-", "*"):
-        a, b = _lin_vars(e["c"][0], depth + 1), _lin_vars(e["c"][1], depth + 1)
+        a, b = _lin_vars(e["c"][0], depth + 1, fn, keep), _lin_vars(e["c"][1], depth + 1, fn, keep)
         if a is None or b is None:
             return None
         if e["op"] == "*":
@@ -733,7 +792,7 @@ def rule_opus_catalogue_slot(prog, fixture=False, rule_id="R-C01-7"):
                 continue
             i_d = iv[0]["d"]
             key = "%s::%s::catalogue-slot" % (fn.relfile(), fn.qn)
-            lf = _lin_vars(args[0])
+            lf = _lin_vars(args[0], fn=fn, keep=(i_d,))
             written_in_loop = set()
             for x in walk(loop["c"][loop["parts"]["body"]]):
                 for d, _ in flow.written_decls(x):
@@ -814,6 +873,15 @@ def rule_extents_from_sorted(prog, fixture=False):
                 if c0 is not None and c0.get("k") in ("MemberExpr", "DeclRefExpr"):
                     cont = c0
                     break
+        if cont is None:
+            # indexed form: the only vector-typed member/variable subscripted or sized in the loop
+            cands = {}
+            for x in walk(loop):
+                if x.get("k") in ("MemberExpr", "DeclRefExpr") and x.get("dk") in ("Field", "Var") and \
+                        "vector" in (x.get("ct") or x.get("t") or ""):
+                    cands[x.get("d")] = x
+            if len(cands) == 1:
+                cont = list(cands.values())[0]
         if cont is None:
             r.undecided.append("%s: cannot tell which container the extent loop walks" % fn.qn)
             continue
